@@ -58,7 +58,7 @@ func Main(c *run.Ctx) {
 				map[string]any{"case": out.OpenCase, "stderr": tail(out.Stderr, 4000)})
 		}
 	}
-	for _, f := range []string{"proto:otlp-traces", "proto:zipkin-json", "proto:zipkin-ndjson", "spans with nested attributes", "spans > 64 KiB", "pushes delivered by the parser in several chunks"} {
+	for _, f := range []string{"proto:otlp-traces", "proto:zipkin-json", "proto:zipkin-ndjson", "spans with nested attributes", "spans > 64 KiB", "pushes delivered by the parser in several chunks", "exports in which spans of different traces share a span id"} {
 		c.Floor(f, 1, 0)
 	}
 	c.Floor("spans read back and compared", total, 0)
@@ -92,6 +92,7 @@ func Child(c *run.Ctx, name string) {
 		if gi%29 == 3 {
 			o.BigAttrs = true // > 64 KiB spans
 		}
+		o.ReuseSpanIDs = gi%5 == 2 // spans of different traces with one and the same span id
 		if gi%500 == 77 || gi%500 == 78 || gi%500 == 79 {
 			// enough rows to cross the parser's 1 MiB chunk threshold several times
 			o.Groups, o.N, o.Hostile = 2+r.Intn(3), 2500+r.Intn(1500), false
@@ -130,6 +131,9 @@ func Child(c *run.Ctx, name string) {
 		}
 		if big {
 			c.Floor("spans > 64 KiB", 0, 1)
+		}
+		if sc.Reused > 0 {
+			c.Floor("exports in which spans of different traces share a span id", 0, 1)
 		}
 		if i < 2 {
 			c.Sample(map[string]any{"proto": rq.Proto, "spans": len(sc.Spans), "first_span": sc.Spans[0]})
@@ -181,17 +185,20 @@ func Child(c *run.Ctx, name string) {
 		// one trace row per span
 		rowOf := map[string][]int{}
 		for j := range traces.MSpanId {
-			rowOf[hex.EncodeToString(traces.MSpanId[j])] = append(rowOf[hex.EncodeToString(traces.MSpanId[j])], j)
+			k := hex.EncodeToString(traces.MTraceId[j]) + "/" + hex.EncodeToString(traces.MSpanId[j])
+			rowOf[k] = append(rowOf[k], j)
 		}
 		tagRows := map[string][]int{}
 		for j := range tags.MSpanId {
-			tagRows[hex.EncodeToString(tags.MSpanId[j])] = append(tagRows[hex.EncodeToString(tags.MSpanId[j])], j)
+			k := hex.EncodeToString(tags.MTraceId[j]) + "/" + hex.EncodeToString(tags.MSpanId[j])
+			tagRows[k] = append(tagRows[k], j)
 		}
 		if len(traces.MSpanId) != len(sc.Spans) {
 			c.Violation("trace-row-count/"+rq.Proto, fmt.Sprintf("%d spans pushed, %d trace rows produced", len(sc.Spans), len(traces.MSpanId)), replay)
 		}
 		for _, sp := range sc.Spans {
-			id := hex.EncodeToString(sp.SpanID)
+			// a span is identified by (trace id, span id): span ids are only unique inside a trace
+			id := hex.EncodeToString(sp.TraceID) + "/" + hex.EncodeToString(sp.SpanID)
 			rows := rowOf[id]
 			if len(rows) != 1 {
 				c.Violation("trace-row-per-span/"+rq.Proto, fmt.Sprintf("span %s has %d trace rows (exactly one expected)", id, len(rows)), replay)
@@ -249,7 +256,7 @@ func Child(c *run.Ctx, name string) {
 		}
 		spanByID := map[string]gen.Span{}
 		for _, sp := range sc.Spans {
-			spanByID[string(sp.SpanID)] = sp
+			spanByID[string(sp.TraceID)+"/"+string(sp.SpanID)] = sp
 		}
 		for tid, rows := range byTrace {
 			sort.Slice(rows, func(a, b int) bool { return traces.MTimestampNs[rows[a]] < traces.MTimestampNs[rows[b]] })
@@ -271,7 +278,7 @@ func Child(c *run.Ctx, name string) {
 			got := 0
 			for resp := range ch {
 				got++
-				sp, ok := spanByID[string(resp.Span.SpanId)]
+				sp, ok := spanByID[tid+"/"+string(resp.Span.SpanId)]
 				if !ok {
 					c.Violation("read-unknown-span/"+rq.Proto, fmt.Sprintf("read path returned span id %x that was not pushed", resp.Span.SpanId), replay)
 					continue
